@@ -2,7 +2,7 @@
 name of a function in /repo; clauses are strings in Python expression syntax that
 the engine evaluates symbolically (and native/clause_eval.py evaluates natively)."""
 import ast
-from .core import parse_kind, ContractError
+from .kinds import parse_kind, ContractError
 
 CONTRACTS = {}      # qualname -> Contract
 SPECFNS = {}        # name -> SpecFn
